@@ -196,3 +196,10 @@ Example C17_example :
       ph s = Running /\ eps s = eps demo_core)
   /\ is_conn_fault (EvActorStopping true 9 (Some 900) (Some ErrProtocol)) = true.
 Proof. vm_compute. repeat split. Qed.
+
+(* ---- RECONNECT_IVL / RECONNECT_IVL_MAX as the application sets them (option layer, Model/Options.v) ---- *)
+From RZ Require Import Model.Options Proofs.OptionsProofs Proofs.OptionsCompose.
+Theorem C17_reconnect_option_semantics : forall (o : opts) (b : bytes), (match apply_opt o RECONNECT_IVL b with | inl o' => exists v, i32_of b = Some v /\ -1 <= v /\ reconnect_ivl_of o' = (if (v =? -1) || (v =? 0) then None else Some (Z.to_N v)) /\ (forall g, g <> F_reconnect_ivl -> o' g = o g) | inr e => (e = EVal 0 /\ i32_of b = None) \/ (e = EVal RECONNECT_IVL /\ exists v, i32_of b = Some v /\ v < -1) end)%Z /\ (match apply_opt o RECONNECT_IVL_MAX b with | inl o' => exists v, i32_of b = Some v /\ 0 <= v /\ reconnect_ivl_max_of o' = Some (Z.to_N v) /\ (forall g, g <> F_reconnect_ivl_max -> o' g = o g) | inr e => (e = EVal 0 /\ i32_of b = None) \/ (e = EVal RECONNECT_IVL_MAX /\ exists v, i32_of b = Some v /\ v < 0) end)%Z.
+Proof. exact reconnect_semantics. Qed.
+Theorem C17_reconnect_max_option_caps : forall (o : opts) (m : Z) (base att : N), (0 < m <= 2147483647)%Z -> exists o', apply_opt o RECONNECT_IVL_MAX (i32_bytes m) = inl o' /\ reconnect_ivl_max_of o' = Some (Z.to_N m) /\ delay base (Z.to_N m * 1000000) att <= Z.to_N m * 1000000.
+Proof. exact reconnect_max_option_caps. Qed.
